@@ -25,13 +25,19 @@ import (
 	"time"
 
 	"github.com/nsqio/nsq/internal/lg"
+	"github.com/nsqio/nsq/internal/version"
 )
 
 const (
-	vfE4Unit     = int64(1000 * time.Second) // one virtual time unit
-	vfE4Inactive = int64(2500 * time.Second)
-	vfE4TombLife = int64(1500 * time.Second)
-	vfE4Now0     = int64(1000000) * int64(time.Second)
+	vfE4Unit = int64(1000 * time.Second) // one virtual time unit
+	vfE4Now0 = int64(1000000) * int64(time.Second)
+)
+
+// --inactive-producer-timeout / --tombstone-lifetime of the daemon under test, in seconds; the option-edge legs
+// set them to 0 or a negative value (VERIF_E4_INACTIVE_S, VERIF_E4_TOMBLIFE_S)
+var (
+	vfE4Inactive = int64(vfEnvInt("VERIF_E4_INACTIVE_S", 2500)) * int64(time.Second)
+	vfE4TombLife = int64(vfEnvInt("VERIF_E4_TOMBLIFE_S", 1500)) * int64(time.Second)
 )
 
 // Harness-side I/O budget. A harness timeout is NOT a verdict about nsqlookupd: the run ends with
@@ -758,8 +764,19 @@ func (e *vfE4Env) execOnly(w []string) (string, bool) {
 			out = fmt.Sprintf("%d %s", code, m.Message)
 		}
 	case "raw":
-		code, _ := e.httpDo(w[2], w[3], vfE4Query(w[4], w[5], w[6], w[7]))
+		code, body := e.httpDo(w[2], w[3], vfE4Query(w[4], w[5], w[6], w[7]))
 		out = fmt.Sprintf("status=%d", code)
+		if code == 200 && w[2] == "GET" && w[3] == "/ping" {
+			out += " body=" + vfHex(body) // PlainText decorator: the two bytes "OK"
+		}
+		if code == 200 && w[2] == "GET" && w[3] == "/info" {
+			var m map[string]interface{}
+			if json.Unmarshal(body, &m) == nil && len(m) == 1 && m["version"] == version.Binary {
+				out += " body=version"
+			} else {
+				out += " body=BAD-" + vfHex(body)
+			}
+		}
 	case "stream":
 		id, _ := strconv.Atoi(w[2])
 		var splits []int
